@@ -316,7 +316,9 @@ def k_case(ctx, rng, case, sc, lines, expect):
     want_keys = [(s_['element'], s_['charge']) for s_ in case['species']]
     add('count %s %s' % (f2b(L), f2b(step)), 'rates-requested', 'ok' if keys == want_keys and not sc.bad_beam_ion else
         'beam_stopping_rate requested for %r (beam ion %r), composition is %r' % (keys, sc.bad_beam_ion[:1], want_keys))
-    if st != 'ok' or n_impl < 2 or len(sc.rates) != len(case['species']):
+    if st != 'ok' or n_impl < 2 or n_impl > MAX_NODES or len(sc.rates) != len(case['species']):
+        if n_impl > MAX_NODES:
+            ctx.count('K:implausible-sample-count')
         return False
     n = n_impl
     nodes = py_nodes(L, n)
@@ -386,6 +388,11 @@ def k_case(ctx, rng, case, sc, lines, expect):
 # ----------------------------------------------------------------------------------------------------------------
 # S: model-free oracles on the implementation
 # ----------------------------------------------------------------------------------------------------------------
+MAX_NODES = 600          # a sample count beyond this is reported as a broken correspondence, never iterated over
+MAX_DEEP_FLUX = 24       # flux integrals per configuration in the deep oracle
+MAX_RK4_STEPS = 6000     # streamline integration
+MAX_SIGNATURES = 6       # stop searching once this many distinct failing signatures are established
+SHRINK_SECONDS = 20.0    # wall-clock budget of the shrinker per reported input
 _GL8 = np.polynomial.legendre.leggauss(8)
 _GL32 = np.polynomial.legendre.leggauss(32)
 
@@ -510,7 +517,10 @@ def s_case(ctx, rng, case, sc, deep=False):
         no_stop = all(sp['rate'][0] == 0.0 for sp in case['species'])
         zs = [(0, None), (n - 1, None), (rng.randrange(n), None), (rng.randrange(n - 1), rng.uniform(0.2, 0.8))]
         if deep:
-            zs += [(k, None) for k in range(n)] + [(k, 0.5) for k in range(n - 1)]
+            # all nodes and mid-points, thinned to at most MAX_DEEP_FLUX evaluations (each is ~1400 density calls)
+            allz = [(k, None) for k in range(n)] + [(k, 0.5) for k in range(n - 1)]
+            stride = max(1, -(-len(allz) // MAX_DEEP_FLUX))
+            zs += allz[::stride]
         frac = 1.0 - math.exp(-0.5 * case['clamp_sigma'] ** 2) if case['clamp'] else 1.0
         for k, t in zs:
             if t is None:
@@ -601,7 +611,7 @@ def s_case(ctx, rng, case, sc, deep=False):
     cx, cy = x / sx0, y / sy0
     # RK4 with steps well below the scale length sigma/tan(alpha) of the field
     tmax = max(math.tan(math.radians(case['divx'])), math.tan(math.radians(case['divy'])))
-    steps = int(min(6000, max(64, 20.0 * (z1 - z0) * tmax / sg))) * (4 if deep else 1)
+    steps = min(MAX_RK4_STEPS, int(max(64, 20.0 * (z1 - z0) * tmax / sg)) * (4 if deep else 1))
     hh = (z1 - z0) / steps
 
     def slope(xx, yy, zz_):
@@ -674,8 +684,10 @@ def _simplifications(case):
         yield c
 
 
-def shrink(rng, case, signature, budget=60):
-    """greedy simplification keeping a failure of the same oracle"""
+def shrink(rng, case, signature, budget=60, seconds=SHRINK_SECONDS):
+    """greedy simplification keeping a failure of the same oracle; bounded by evaluations and by wall-clock"""
+    import time
+    t_end = time.time() + seconds
     oracle = signature.split(':')[1]
     cur = case
     why = None
@@ -685,10 +697,11 @@ def shrink(rng, case, signature, budget=60):
         progress = False
         for c in _simplifications(cur):
             budget -= 1
-            if budget <= 0:
+            if budget <= 0 or time.time() > t_end:
+                budget = 0
                 break
             try:
-                fs_ = evaluate(rng, c)
+                fs_ = evaluate(rng, c, deep=False)
             except Exception:       # noqa
                 continue
             hit = [f for f in fs_ if f[0].split(':')[1] == oracle]
@@ -699,7 +712,10 @@ def shrink(rng, case, signature, budget=60):
 
 
 def report(ctx, rng, case, sg_, why):
-    if sg_ in ctx.known or sg_ in [f['signature'] for f in ctx.failing]:
+    have = [f['signature'] for f in ctx.failing]
+    oracle = sg_.split(':')[1]
+    # shrink only the first input of each oracle (other input classes of the same oracle are reported as found)
+    if sg_ in ctx.known or sg_ in have or any(h.split(':')[1] == oracle for h in have) or len(have) >= MAX_SIGNATURES:
         ctx.fail(sg_, why, dict(case=case))
         return
     small, sg2, why2 = shrink(rng, case, sg_)
@@ -730,6 +746,9 @@ def compare(ctx, lines, expect, outs):
         if not agree:
             ctx.disagreements += 1
             ctx.count('disagreement:' + e['kind'])
+            if ctx.hist['disagreement:' + e['kind']] > 3:
+                yield e                     # counted, not recorded again (replay files stay small)
+                continue
             shown = o if len(o) < 400 else o[:400] + '...'
             try:
                 shown = [b2f(t) for t in o.split()][:8]
@@ -762,12 +781,26 @@ def run(ctx):
     ctx.assumptions += ['rigid beam/plasma transforms (rotation + translation)', 'finite, non-negative stopping rates and densities; positive sigma, length, step, energy']
     ctx.lean_check(['Cherab.Props.C04'], 'Cherab/Audit/C04.lean')
 
+    import time
     rng = ctx.rng
     lines, expect = [], []
     corpus = load_corpus()
     ncases = ctx.n(300, 8000)
     nedge = ctx.n(30, 400)
+    # explicit budgets: the search stops once violations are established or the wall-clock budget is used, and always
+    # falls through to the K comparison and to the end of run()
+    t_start = time.time()
+    budget = 840.0 if ctx.tier == 'thorough' else 240.0
+    stopped = None
     for i in range(len(corpus) + ncases + nedge):
+        if len(ctx.failing) + len(ctx.known_hits) >= MAX_SIGNATURES:
+            stopped = 'stopped-early:%d-distinct-failing-signatures' % MAX_SIGNATURES
+        elif time.time() - t_start > 0.75 * budget:
+            stopped = 'stopped-early:wall-clock-budget'
+        if stopped:
+            ctx.count(stopped)
+            ctx.log(stopped, 'after %d configurations, %.0f s' % (i, time.time() - t_start))
+            break
         if i < len(corpus):
             case = corpus[i]
             ctx.count('corpus')
@@ -785,18 +818,21 @@ def run(ctx):
                  sample=dict(case=case) if i < 2 else None)
     outs = ctx.driver(lines)
     bad = list(compare(ctx, lines, expect, outs))
-    # a broken correspondence: search the implementation on the disagreeing configurations, in depth
+    # a broken correspondence with no failing input yet: search the implementation on (at most 3 of) the disagreeing
+    # configurations with the deep oracles, inside what is left of the budget
     seen = set()
     for e in bad:
+        if ctx.failing or ctx.known_hits or len(seen) >= 3 or time.time() - t_start > budget:
+            break
         key = json.dumps(e['case'], sort_keys=True)
-        if key in seen or len(seen) >= 10:
+        if key in seen:
             continue
         seen.add(key)
         sc = build(e['case'])
-        l2, e2 = [], []
-        if k_case(ctx, rng, e['case'], sc, l2, e2):
+        if k_case(_NullCtx(), rng, e['case'], sc, [], []):
             for sg_, why in s_case(ctx, rng, e['case'], sc, deep=True):
                 report(ctx, rng, e['case'], sg_, why)
+    ctx.extra['search_wall_s'] = round(time.time() - t_start, 1)
 
 
 def replay(ctx, path):
